@@ -247,6 +247,7 @@ static int eisdirFd() {
 
 static int doOpen(int dirfd, const char* cpath, int flags, mode_t mode,
                   bool at) {
+  TsanIgnore ig;
   std::string path = at ? std::string(cpath ? cpath : "") : rewrite(cpath);
   bool wr = (flags & O_ACCMODE) != O_RDONLY;
   bool isDirOpen = (flags & O_DIRECTORY) != 0;
@@ -425,6 +426,7 @@ int __wrap_sigtimedwait(const sigset_t* set, siginfo_t* info,
 
 // ------------------------------------------------------------- signals
 int __wrap_kill(pid_t pid, int sig) {
+  TsanIgnore ig;
   if (!R.in_daemon) {
     // the harness never signals anything; refuse outright
     errno = EPERM;
@@ -502,6 +504,7 @@ static std::string xval(const std::string& name, const std::string& v) {
 
 int __wrap_setxattr(const char* path, const char* name, const void* value,
                     size_t size, int flags) {
+  TsanIgnore ig;
   (void)flags;
   if (!R.in_daemon) {
     errno = EPERM;
@@ -561,6 +564,7 @@ static ssize_t xget(Cg* c, const char* name, void* buf, size_t size) {
 
 ssize_t __wrap_getxattr(const char* path, const char* name, void* value,
                         size_t size) {
+  TsanIgnore ig;
   if (!R.in_daemon) {
     errno = ENODATA;
     return -1;
@@ -576,6 +580,7 @@ ssize_t __wrap_getxattr(const char* path, const char* name, void* value,
 }
 
 ssize_t __wrap_fgetxattr(int fd, const char* name, void* value, size_t size) {
+  TsanIgnore ig;
   if (!R.in_daemon) {
     errno = ENODATA;
     return -1;
@@ -595,6 +600,7 @@ ssize_t __wrap_fgetxattr(int fd, const char* name, void* value, size_t size) {
 
 // ------------------------------------------------------------ raw syscalls
 long __wrap_syscall(long nr, ...) {
+  TsanIgnore ig;
   va_list ap;
   va_start(ap, nr);
   long a[6];
@@ -688,6 +694,7 @@ int __wrap_openat64(int dirfd, const char* path, int flags, ...) {
 static FILE* doFopen(const char* cpath, const char* mode, bool is64) {
   if (!armed())
     return is64 ? __real_fopen64(cpath, mode) : __real_fopen(cpath, mode);
+  TsanIgnore ig;
   std::string path = rewrite(cpath);
   bool wr = strchr(mode, 'w') || strchr(mode, 'a') || strchr(mode, '+');
   if (wr && !inRoot(path)) {
@@ -731,14 +738,17 @@ FILE* __wrap_fopen64(const char* path, const char* mode) {
 }
 
 int __wrap_close(int fd) {
-  if (R.in_daemon)
+  if (R.in_daemon) {
+    TsanIgnore ig;
     g_fds.erase(fd);
+  }
   return __real_close(fd);
 }
 
 ssize_t __wrap_write(int fd, const void* buf, size_t n) {
   if (!armed())
     return __real_write(fd, buf, n);
+  TsanIgnore ig;
   const FdInfo* fi = fdInfo(fd);
   if (fi) {
     if (fi->kind == FdInfo::CGFILE && fi->writable) {
@@ -778,6 +788,7 @@ ssize_t __wrap_read(int fd, void* buf, size_t n) {
 DIR* __wrap_opendir(const char* path) {
   if (!armed())
     return __real_opendir(path);
+  TsanIgnore ig;
   countAccess();
   DIR* d = __real_opendir(path);
   int e = errno;
@@ -793,6 +804,7 @@ DIR* __wrap_opendir(const char* path) {
 DIR* __wrap_fdopendir(int fd) {
   if (!armed())
     return __real_fdopendir(fd);
+  TsanIgnore ig;
   const Cg* c = cgOfDirFd(fd);
   countAccess();
   if (auto f = openFault("#readdir", c)) {
@@ -815,6 +827,7 @@ DIR* __wrap_fdopendir(int fd) {
 }
 
 static bool noDtype() {
+  TsanIgnore ig;
   return R.in_daemon && g_bypass == 0 && R.plan.get("no_dtype", false).asBool();
 }
 
@@ -837,14 +850,17 @@ struct dirent64* __wrap_readdir64(DIR* d) {
 }
 
 int __wrap_closedir(DIR* d) {
-  if (R.in_daemon)
+  if (R.in_daemon) {
+    TsanIgnore ig;
     g_dirs.erase(d);
+  }
   return __real_closedir(d);
 }
 
 int __wrap_faccessat(int dirfd, const char* path, int mode, int flags) {
   if (!armed())
     return __real_faccessat(dirfd, path, mode, flags);
+  TsanIgnore ig;
   const Cg* c = cgOfDirFd(dirfd);
   countAccess();
   if (auto f = openFault(path, c)) {
